@@ -128,8 +128,7 @@ func runHistoryFrom(c *core.Ctx, r *core.Result, ho histOpt, cur *tree.Tree, edi
 		nrec := newNotifyRec()
 		ropt := fsutil.ReceiveOpt{NotifyHashed: nrec.fn, ContentHasher: newHasher().fn, Differ: ro.Differ}
 		res := runSync(syncOpt{Cfg: wire.Config{Cap: core.Pick(R, []int{0, 1, 8, 64}), KeepStats: true}, Src: fs, Dest: dest, Recv: ropt})
-		if res.TimedOut {
-			r.Inconclusive = "watchdog: transfer did not finish"
+		if checkHang(r, res, fmt.Sprintf("round %d edits %v", round, ro.Edits)) {
 			return nil
 		}
 		if res.SendErr != nil || res.RecvErr != nil {
